@@ -36,6 +36,7 @@ const smtPrelude2 = `(declare-const ABSENTROW Row)
 (declare-fun j.asbytes (JsonV) Bytes)
 (declare-fun j.asint (JsonV) Int)
 (declare-fun m.len.j ((Array Str JsonV)) Int)
+(declare-fun m.len.has ((Array Str Bool)) Int)
 (declare-datatypes ((FeedEv 0)) (((FE_NIL) (mkFE (fe.opcode Int) (fe.key Bytes) (fe.value Bytes) (fe.cas Int) (fe.expiry Int)
    (fe.datatype Int) (fe.revno Int) (fe.collid Int)))))
 `
